@@ -60,6 +60,7 @@ def check(ctx):
     _saved_iterates(ctx, rep)
     _power_method(rep, model)
     _pdhg_steps(rep, model)
+    _fixed_points(rep, model)
     return rep
 
 
@@ -727,3 +728,189 @@ def _pdhg_steps(rep, model):
             except PyRaise as e:
                 rep.violation('R5', 'pdhg', '%s: raises %s' % (tag, e.name),
                               c11.PDHG, fn.lineno)
+
+
+# --------------------------------------------------------------------------
+# R6: a solution is a fixed point.  The functionals are uninterpreted; the
+# first-order optimality conditions at a symbolic point are added as rewrite
+# axioms on the proximal symbols:
+#     -sum L_i^* y_i - grad h(x*)  in  df(x*)   ==>
+#         prox_{t f}(x* - t (grad h(x*) + sum L_i^* y_i)) = x*   for every t
+#     L_i x*  in  dg_i^*(y_i)                    ==>
+#         prox_{s g_i^*}(y_i + s L_i x*) = y_i                   for every s
+# and the solver, started in its own variables at such a point, must return
+# it after 1, 2 and 3 iterations -- identically in all step sizes.
+def _fixed_points(rep, model):
+    from . import c11
+    from .. import vs
+    from ..ratfun import Rat
+    from ..symex import Interp, Func, OpV, Vec, Builtin, PyRaise, to_rat
+    from ..forks import explore
+
+    class FPOSym(vs.OSym):
+        def __init__(self, name, axioms, reg):
+            vs.OSym.__init__(self, name, False, reg)
+            self.axioms = axioms
+
+        def apply(self, lf):
+            for arg, res in self.axioms:
+                if not vs.add(lf, arg, -1):
+                    return dict(res)
+            return vs.OSym.apply(self, lf)
+
+    class FPHooks(c11.SolverHooks):
+        def __init__(self):
+            c11.SolverHooks.__init__(self)
+            self.fp = {}
+
+        def on_getattr(self, interp, obj, name):
+            if isinstance(obj, OpV) and obj.functional and \
+                    name == 'proximal' and obj.term.name in self.fp:
+                fname = obj.term.name
+
+                def prox(sigma):
+                    k = ('fpprox', fname, repr(to_rat(sigma)))
+                    if k not in self.memo:
+                        ax = self.fp[fname](to_rat(sigma))
+                        self.memo[k] = OpV(FPOSym(
+                            'prox[%s,%s]' % (fname, k[2]), ax, interp.reg),
+                            obj.domain, obj.domain, False)
+                    return self.memo[k]
+                return Builtin('proximal', prox)
+            return c11.SolverHooks.on_getattr(self, interp, obj, name)
+
+    def setup(assume):
+        H = FPHooks()
+        I = Interp(model, assume, H)
+        return H, I, c11.Env(I, H)
+
+    def grad_at(H, I, fun, lf):
+        g = H.on_getattr(I, fun, 'gradient')
+        return g.term.apply(lf)
+
+    # ---- scenarios: (tag, file, function, runner(assume, niter)) ---------
+    def pdhg(extra):
+        def run(assume, niter):
+            H, I, e = setup(assume)
+            xs, ys = vs.sym('xs'), vs.sym('ys')
+            L = I.opsym('L', e.X, e.Y, True)
+            LTy, Lx = L.term.adj().apply(ys), L.term.apply(xs)
+            H.fp['f'] = lambda t: [(vs.add(xs, LTy, -t), xs)]
+            H.fp['g*'] = lambda s_: [(vs.add(ys, Lx, s_), ys)]
+            x, y = Vec(dict(xs), e.X), Vec(dict(ys), e.Y)
+            kw = {'tau': Rat.var('tau'), 'sigma': Rat.var('sigma'), 'y': y}
+            kw.update(extra)
+            fn = model.ctx.func(c11.PDHG, 'pdhg')
+            I.call_func(Func(fn, I.env_of(c11.PDHG), None),
+                        [x, e.fun('f', e.X), e.fun('g', e.Y), L, niter], kw)
+            return [('x', vs.add(x.val, xs, -1)),
+                    ('y', vs.add(y.val, ys, -1))]
+        return run
+
+    def dr(same):
+        def run(assume, niter):
+            H, I, e = setup(assume)
+            Ys = [e.Y, e.Y if same else e.Y2]
+            x0 = vs.sym('x0')
+            L = [I.opsym('L%d' % i, e.X, Ys[i], True) for i in range(2)]
+            tau = Rat.var('tau')
+            sig = [Rat.var('ss0'), Rat.var('ss1')]
+            # the dual variables start at zero inside the solver: the
+            # points it can be started at are y_i = -sigma_i/2 L_i x0,
+            # x* = x0 + tau sum L_i^* y_i
+            ystar = [vs.scale(L[i].term.apply(x0), -sig[i] / 2)
+                     for i in range(2)]
+            LTy = {}
+            for i in range(2):
+                LTy = vs.add(LTy, L[i].term.adj().apply(ystar[i]))
+            xstar = vs.add(x0, LTy, tau)
+            H.fp['f'] = lambda t: [(vs.add(xstar, LTy, -t), xstar)]
+            for i in range(2):
+                H.fp['g%d*' % i] = (lambda i: lambda s_: [(vs.add(
+                    ystar[i], L[i].term.apply(xstar), s_), ystar[i])])(i)
+            x = Vec(dict(x0), e.X)
+            g = [e.fun('g%d' % i, Ys[i]) for i in range(2)]
+            fn = model.ctx.func(DR, 'douglas_rachford_pd')
+            I.call_func(Func(fn, I.env_of(DR), None),
+                        [x, e.fun('f', e.X), g, L, niter],
+                        {'tau': tau, 'sigma': sig})
+            return [('x', vs.add(x.val, xstar, -1))]
+        return run
+
+    def fbpd(assume, niter):
+        H, I, e = setup(assume)
+        xs = vs.sym('xs')
+        L = [I.opsym('L%d' % i, e.X, e.Y, True) for i in range(2)]
+        h = e.fun('h', e.X)
+        gh = grad_at(H, I, h, xs)
+        H.fp['f'] = lambda t: [(vs.add(xs, gh, -t), xs)]
+        for i in range(2):
+            H.fp['g%d*' % i] = (lambda i: lambda s_: [(vs.scale(
+                L[i].term.apply(xs), s_), {})])(i)
+        x = Vec(dict(xs), e.X)
+        g = [e.fun('g%d' % i, e.Y) for i in range(2)]
+        fn = model.ctx.func(FB, 'forward_backward_pd')
+        I.call_func(Func(fn, I.env_of(FB), None),
+                    [x, e.fun('f', e.X), g, L, h, Rat.var('tau'),
+                     [Rat.var('ss0'), Rat.var('ss1')], niter], {})
+        return [('x', vs.add(x.val, xs, -1))]
+
+    def pgrad(fname):
+        def run(assume, niter):
+            H, I, e = setup(assume)
+            xs = vs.sym('xs')
+            g = e.fun('g', e.X)
+            gg = grad_at(H, I, g, xs)
+            H.fp['f'] = lambda t: [(vs.add(xs, gg, -t), xs)]
+            x = Vec(dict(xs), e.X)
+            fn = model.ctx.func(c11.PGRAD, fname)
+            I.call_func(Func(fn, I.env_of(c11.PGRAD), None),
+                        [x, e.fun('f', e.X), g, Rat.var('gamma'), niter], {})
+            return [('x', vs.add(x.val, xs, -1))]
+        return run
+
+    scen = [('pdhg[plain]', c11.PDHG, 'pdhg', pdhg({})),
+            ('pdhg[theta=0]', c11.PDHG, 'pdhg', pdhg({'theta': 0})),
+            ('pdhg[gamma_primal]', c11.PDHG, 'pdhg',
+             pdhg({'gamma_primal': Rat.var('gp')})),
+            ('pdhg[gamma_dual]', c11.PDHG, 'pdhg',
+             pdhg({'gamma_dual': Rat.var('gd')})),
+            ('douglas_rachford_pd[2 operators, one range]', DR,
+             'douglas_rachford_pd', dr(True)),
+            ('douglas_rachford_pd[2 operators, two ranges]', DR,
+             'douglas_rachford_pd', dr(False)),
+            ('forward_backward_pd[2 operators]', FB, 'forward_backward_pd',
+             fbpd),
+            ('proximal_gradient', c11.PGRAD, 'proximal_gradient',
+             pgrad('proximal_gradient')),
+            ('accelerated_proximal_gradient', c11.PGRAD,
+             'accelerated_proximal_gradient',
+             pgrad('accelerated_proximal_gradient'))]
+    n = 0
+    for tag, rel, fname, run in scen:
+        fn = model.ctx.func(rel, fname)
+        if fn is None:
+            raise AnalysisError('anchor vanished: %s' % fname)
+        for niter in (1, 2, 3):
+            n += 1
+            cons = '%s,niter=%d' % (tag, niter)
+            try:
+                leaves = explore(lambda a: run(a, niter), limit=40)
+                bad = []
+                for a, diffs in leaves:
+                    for lbl, d in diffs:
+                        if d:
+                            bad.append('%s leaves the solution: %s - %s* = '
+                                       '%s' % (lbl, lbl, lbl,
+                                               vs.show(d)[:200]))
+                if bad:
+                    rep.violation('R6', cons, bad[0], rel, fn.lineno)
+                else:
+                    rep.holds('R6', cons, 'started at a point satisfying '
+                              'the optimality conditions, returns it')
+            except Undecided as e:
+                rep.undecided('R6', cons, str(e), rel, fn.lineno)
+            except PyRaise as e:
+                rep.violation('R6', cons, 'raises %s' % e.name, rel,
+                              fn.lineno)
+    rep.floor('R6', 'fixed-point runs', n, 27)
